@@ -439,11 +439,17 @@ def _focused_session(pb, rng, s, roots):
             break
         steps.append(st)
         chain.append(st["store"])
-    # interrogate everything in the chain, newest first most of the time
+    # interrogate everything in the chain, newest first most of the time; memo leaks between a source and what was
+    # derived from it typically show on the *same* accessor, so the warm-up questions are asked again of the derivative
+    asked = [st["op"] for st in steps if "store" not in st]
     for _ in range(rng.randint(2, 6)):
         cur = chain[-1] if rng.random() < 0.6 else rng.choice(chain)
         kind = pb.objects[cur]["kind"]
-        op = _pick_op(rng, _stateful_ops(kind) if rng.random() < 0.6 else REGISTRY[kind])
+        same = [BY_NAME[kind][n] for n in asked if n in BY_NAME[kind]]
+        if same and rng.random() < 0.45:
+            op = rng.choice(same)
+        else:
+            op = _pick_op(rng, _stateful_ops(kind) if rng.random() < 0.6 else REGISTRY[kind])
         st = pb.call_step(s, cur, op, store_p=0.1)
         if st:
             steps.append(st)
